@@ -250,6 +250,7 @@ class Interp:
         # pure, deterministic stdlib modules every rule may see (a rule's own trusted_modules win); logging is a no-op stand-in:
         # a harmless `import itertools` / `logger.debug(..)` added by a maintainer must not make a check refuse
         self.trusted = {**_default_trusted(), **dict(trusted_modules or {})}
+        self._cm: list = []  # frames of @contextmanager generators whose with-body runs at their yield
         self.externals = externals or {}
         self.max_depth = max_depth
         self.max_steps = max_steps
@@ -440,9 +441,71 @@ class Interp:
                     if not any(self.exc_isa(r.name, n, mod) for n in names):
                         raise
                 return
-            raise AnalysisError(f"pyint: with-statement not modelled: {norm(st)[:80]}")
+            return self.with_(st, 0, env, mod, depth)
         else:
             raise AnalysisError(f"pyint: statement not modelled: {norm(st)[:100]}")
+
+    def with_(self, st, i, env, mod, depth):
+        """`with` over (a) a repository @contextmanager generator: its body is interpreted and the with-body runs AT the yield, so the
+        exceptions of the with-body travel through the generator's own try/except/finally exactly like in Python; (b) a record whose
+        class defines __enter__/__exit__; (c) a native context manager object of a trusted module."""
+        from .model import decorators
+
+        if i == len(st.items):
+            return self.block(st.body, env, mod, depth)
+        item = st.items[i]
+        cm = self.ev(item.context_expr, env, mod, depth)
+
+        def body(value):
+            if item.optional_vars is not None:
+                self.assign(item.optional_vars, value, env, mod, depth)
+            self.with_(st, i + 1, env, mod, depth)
+
+        if isinstance(cm, Gen):
+            if not any(d.split(".")[-1] == "contextmanager" for d in decorators(cm.node)):
+                raise AnalysisError(f"pyint: with over a plain generator ({cm.node.name} is not a @contextmanager)")
+            fr = {"state": "pre", "gd": len(self._gen_targets), "body": body, "ctl": None}
+            self._cm.append(fr)
+            try:
+                try:
+                    self.block(cm.node.body, dict(cm.env), cm.f.mod, cm.depth)
+                except _Return:
+                    pass
+            finally:
+                self._cm.pop()
+            if fr["state"] == "pre":
+                raise Raised("RuntimeError", "generator didn't yield")
+            if fr["ctl"] is not None:
+                raise fr["ctl"]
+            return None
+        if isinstance(cm, Rec) and cm._impl is not None and self.model.method(*cm._impl, "__enter__") and self.model.method(*cm._impl, "__exit__"):
+            v = self.apply(self.getattr(cm, "__enter__", st, depth), [], {}, depth)
+            ex = self.getattr(cm, "__exit__", st, depth)
+            try:
+                body(v)
+            except Raised as r:
+                if not self.truthy(self.apply(ex, [("$exc", r.name), f"<exc:{r.name}>", None], {}, depth)):
+                    raise
+                return None
+            except (_Return, _Break, _Continue):
+                self.apply(ex, [None, None, None], {}, depth)
+                raise
+            self.apply(ex, [None, None, None], {}, depth)
+            return None
+        if not isinstance(cm, (Rec, Func, ClassRef, tuple)) and hasattr(cm, "__enter__") and hasattr(cm, "__exit__"):
+            v = cm.__enter__()
+            try:
+                body(v)
+            except Raised as r:
+                if not cm.__exit__(Exception, r, None):
+                    raise
+                return None
+            except (_Return, _Break, _Continue):
+                cm.__exit__(None, None, None)
+                raise
+            cm.__exit__(None, None, None)
+            return None
+        raise AnalysisError(f"pyint: with-statement not modelled: {norm(st)[:80]}")
 
     def loop(self, st, env, mod, depth):
         broke = False
@@ -1252,6 +1315,19 @@ class Interp:
             self._gen_targets.pop()
 
     def do_yield(self, value):
+        if self._cm and len(self._gen_targets) == self._cm[-1]["gd"]:
+            fr = self._cm[-1]
+            if fr["state"] == "pre":
+                fr["state"] = "body"
+                try:
+                    fr["body"](value)
+                except (_Return, _Break, _Continue) as c:
+                    fr["ctl"] = c
+                finally:
+                    fr["state"] = "post"
+                return None
+            if fr["state"] == "post":
+                raise Raised("RuntimeError", "generator didn't stop")
         if not self._gen_targets:
             raise AnalysisError("pyint: yield outside a generator replay")
         top = self._gen_targets[-1]
